@@ -152,3 +152,24 @@ M('C05', 'panicking-slice-index', PROOF,
             )?;""", ['index'], 'get() replaced by a panicking index')
 M('C05', 'unwrap-in-decoder', STM + 'membership_commitment/merkle_tree/commitment.rs',
   'u64_bytes.copy_from_slice(bytes.get(..8).ok_or(MerkleTreeError::SerializationError)?);', 'u64_bytes.copy_from_slice(bytes.get(..8).unwrap());', ['panic:'], 'new unwrap on attacker-controlled length')
+
+# ---------------------------------------------------------------- C09
+MT = 'internal/mithril-merkle-tree/src/'
+M('C09', 'mmr-verdict-dropped', MT + 'merkle_tree.rs',
+  """        .verify(self.inner_root.to_owned(), self.inner_leaves.to_owned())?
+        .then_some(())
+        .with_context(|| "Invalid MKProof")""",
+  """        .verify(self.inner_root.to_owned(), self.inner_leaves.to_owned())?;
+        Ok(())""", ['MKProof::verify'], 'Ok(false) of the MMR verifier accepted')
+M('C09', 'subproof-result-ignored', MT + 'merkle_map.rs',
+  """                .with_context(|| "MKMapProof could not verify sub proof")?;""",
+  """                .with_context(|| "MKMapProof could not verify sub proof")
+                .ok();""", ['sub proof'], 'invalid sub proof accepted')
+M('C09', 'linkage-skipped-for-single', MT + 'merkle_map.rs',
+  'if !self.sub_proofs.is_empty() {', 'if self.sub_proofs.len() > 1 {', ['linkage'], 'a single sub proof is not linked to the master')
+M('C09', 'item-containment-ignored', COMMON + 'entities/mk_set_proof.rs',
+  '            self.proof.contains(&node)?;', '            let _ = self.proof.contains(&node);', ['contains'], 'items not bound to the proof')
+M('C09', 'sortedness-check-weakened', STM + 'membership_commitment/merkle_tree/commitment.rs',
+  'if ordered_indices != proof.indices {', 'if ordered_indices.len() != proof.indices.len() {', ['sorted'], 'unsorted index lists accepted')
+M('C09', 'root-check-dropped', STM + 'membership_commitment/merkle_tree/commitment.rs',
+  'if leaves.len() == 1 && leaves[0] == self.root {', 'if leaves.len() == 1 && !leaves[0].is_empty() {', ['final-node==root'], 'any final node accepted')
